@@ -172,11 +172,21 @@ fn client_case(ctx: &Ctx, k: usize, fin: Final, follow: usize, spelling: usize, 
         }
     };
     let mut script: Vec<Value> = Vec::new();
+    // a reply of a method without out-parameters has no `parameters` member at all (one frame
+    // in five here): it is a reply like any other, continuing or final as its flag says
     for i in 0..k {
-        script.push(json!({"continues": true, "parameters": val(i, rng)}));
+        let p = val(i, rng);
+        script.push(if rng.chance(1, 5) { json!({"continues": true}) } else { json!({"continues": true, "parameters": p}) });
     }
     script.push(match fin {
-        Final::Result => json!({"parameters": val(k, rng)}),
+        Final::Result => {
+            let p = val(k, rng);
+            if rng.chance(1, 5) {
+                json!({})
+            } else {
+                json!({ "parameters": p })
+            }
+        }
         Final::StdError => json!({"error": "org.varlink.service.InvalidParameter", "parameters": {"parameter": "pp"}}),
         Final::CustomError => json!({"error": "com.example.Boom", "parameters": {"why": "x", "i": k}}),
         Final::CustomErrorNoParams => json!({"error": "com.example.Boom"}),
@@ -234,7 +244,8 @@ fn client_case(ctx: &Ctx, k: usize, fin: Final, follow: usize, spelling: usize, 
         let is_err = want.get("error").is_some();
         match it {
             Ok(v) => {
-                if is_err || Some(v) != want.get("parameters") {
+                // absent parameters reach a caller that asked for a JSON value as the empty object
+                if is_err || *v != want.get("parameters").cloned().unwrap_or_else(|| json!({})) {
                     ctx.violation("c05:client:item-mismatch", wit(format!("item {} is Ok({}) but the server sent {}", i, v, want)));
                     return;
                 }
